@@ -203,6 +203,30 @@ def build_args(call):
         return gd.vincdir, [_ang(a["kind"], a["lat"]), _ang(a["kind"], a["lon"]), a["az"], a["s"], ell]
     if fn == "vincinv":
         return gd.vincinv, [a["lat1"], a["lon1"], a["lat2"], a["lon2"], ell]
+    if fn in ("vincinv_utm_x", "line_sf_x"):
+        # second point given in the same or a neighbouring zone (on that zone's near side)
+        dz = a["dz"]
+        e2 = a["e2"] if dz == 0 else (500000.0 - dz * (250000.0 + abs(a["e2"] - 500000.0) * 0.25))
+        f = gd.vincinv_utm if fn == "vincinv_utm_x" else gd.line_sf
+        return f, [a["zone"], a["e1"], a["n1"], a["zone"] + dz, e2, a["n2"], a["hemi"], ell]
+    if fn == "date_to_yyyydoy":
+        return cv.date_to_yyyydoy, [_date(a["d"])]
+    if fn == "yyyydoy_to_date":
+        d = _date(a["d"])
+        s = "%04d%s%03d" % (d.year, "." if a["dot"] else "", d.timetuple().tm_yday)
+        return cv.yyyydoy_to_date, [s]
+    if fn == "angle_fn":
+        an = repo.mod("geodepy.angles")
+        x = a["x"]
+        src, name = a["f"].split(">")
+        v = {"dec": x, "hp": an.dec2hp(x), "gon": an.dec2gon(x), "rad": math.radians(x)}[src]
+        return getattr(an, name), [v]
+    if fn == "angle_fn_v":
+        an = repo.mod("geodepy.angles")
+        xs = np.array(a["xs"], dtype=float)
+        if a["f"] == "hp2dec_v":
+            xs = np.array([an.dec2hp(float(v)) for v in xs])
+        return getattr(an, a["f"]), [xs]
     if fn == "vincinv_utm":
         return gd.vincinv_utm, [a["zone"], a["e1"], a["n1"], a["zone"], a["e2"], a["n2"], a["hemi"], ell]
     if fn == "vincdir_utm":
@@ -413,6 +437,16 @@ def call_strategy(families=False):
         _fd("vincinv_utm", zone=st.integers(1, 60), e1=utm_e, n1=utm_n, e2=utm_e, n2=utm_n, hemi=st.sampled_from(["south", "north"]), ell=st.just("grs80")),
         _fd("vincdir_utm", zone=st.integers(1, 60), e1=S.floats(300000.0, 700000.0), n1=S.floats(2000000.0, 8000000.0), brg=S.floats(0, 360),
             dist=S.floats(1.0, 50000.0), hemi=st.sampled_from(["south", "north"]), ell=st.just("grs80")),
+        _fd("vincinv_utm_x", zone=st.integers(2, 59), e1=utm_e, n1=utm_n, e2=utm_e, n2=utm_n, dz=st.sampled_from([0, 1, -1, 1, -1]),
+            hemi=st.sampled_from(["south", "north", "South", "North"]), ell=st.sampled_from(["grs80", "grs80", "wgs84", "ans"])),
+        _fd("line_sf_x", zone=st.integers(2, 59), e1=utm_e, n1=utm_n, e2=utm_e, n2=utm_n, dz=st.sampled_from([0, 1, -1, 1, -1]),
+            hemi=st.sampled_from(["south", "north", "South", "North"]), ell=st.sampled_from(["grs80", "grs80", "wgs84", "ans"])),
+        _fd("date_to_yyyydoy", d=_epoch),
+        _fd("yyyydoy_to_date", d=_epoch, dot=st.booleans()),
+        _fd("angle_fn", x=st.one_of(S.floats(-360, 360), st.sampled_from([0.0, -0.5, 59.0 / 60.0, 179.99999999999, -12.575])),
+            f=st.sampled_from(["dec>dec2hp", "dec>dec2gon", "dec>dec2dms", "dec>dec2ddm", "dec>dec2hpa", "hp>hp2dec", "hp>hp2rad", "hp>hp2gon",
+                               "hp>hp2dms", "hp>hp2ddm", "gon>gon2dec", "gon>gon2hp", "gon>gon2rad", "dec>dd2sec"])),
+        _fd("angle_fn_v", xs=st.lists(S.floats(-360, 360), min_size=1, max_size=6), f=st.sampled_from(["hp2dec_v", "dec2hp_v"])),
         _fd("line_sf", zone=st.integers(1, 60), e1=utm_e, n1=utm_n, e2=utm_e, n2=utm_n, hemi=st.sampled_from(["south", "north"]), ell=st.just("grs80")),
         _fd("enu2xyz", lat=S.floats(-90, 90), lon=S.floats(-180, 180), v=st.lists(S.floats(-1e4, 1e4), min_size=3, max_size=3)),
         _fd("xyz2enu", lat=S.floats(-90, 90), lon=S.floats(-180, 180), v=st.lists(S.floats(-1e4, 1e4), min_size=3, max_size=3)),
@@ -457,6 +491,16 @@ def call_strategy(families=False):
             op=st.sampled_from(["dec", "hp", "str", "add", "eq", "lt", "llh2xyz", "rad", "vincdir"])),
         _fd("ntv2", lat=S.floats(-35.9, -31.1), lon=S.floats(144.1, 149.9), forward=st.booleans(), method=st.sampled_from(["bilinear", "bicubic"])),
         _fd("ntv2", lat=S.floats(-33.9, -32.1), lon=S.floats(146.1, 147.9), forward=st.booleans(), method=st.sampled_from(["bilinear", "bicubic"])),
+    ]
+    own_set = st.fixed_dictionaries({"p": TR.random_p7(), "sd": st.one_of(st.none(), TR.random_sd7()), "pnum": TR.pnum_kind})
+    own_dated = st.fixed_dictionaries({"p": TR.random_p7().map(lambda p: p[:4] + [v * 0.5 for v in p[4:]]),
+                                       "rates": st.lists(S.floats(-0.01, 0.01), min_size=7, max_size=7),
+                                       "epoch": st.sampled_from([[2010, 1, 1], [2020, 1, 1], [2005, 6, 15]]),
+                                       "sd": st.one_of(st.none(), TR.random_sd7()), "sdr": st.none()}).map(
+        lambda s: dict(s, sdr=([0.0] * 7 if s["sd"] is not None else None)))
+    pool += [
+        _fd("conform7", trans=own_set, X=_X, vcv=_vcv, neg=st.booleans()),
+        _fd("conform14", trans=own_dated, X=_X, epoch=_epoch, vcv=_vcv, neg=st.booleans()),
     ]
     twins14 = st.deferred(lambda: st.sampled_from(_twin_names(True))).map(lambda n: {"name": n})
     twins7 = st.deferred(lambda: st.sampled_from(_twin_names(False))).map(lambda n: {"name": n})
